@@ -26,7 +26,7 @@
 (***************************************************************************)
 EXTENDS ParserSM, HPHash, Json
 
-CONSTANTS Alpha, Scope, MaxInp, MaxWrite, Variant, EmitOps
+CONSTANTS Alpha, Scope, MaxInp, MaxWrite, Variant, EmitOps, EmitEvery
 
 Geoms ==
   IF Scope = "quick"
@@ -221,5 +221,8 @@ AbsInv ==
   /\ Len(data) <= cf.B
 Inv == TableSound /\ ResetClean /\ AbsInv /\ PStateOk(st)
 
-Emit == EmitOps => PrintT(<<"VERIF_OPS", ToJson(ops')>>)
+(* history output: every transition in the small scopes, a random sample    *)
+(* (one in EmitEvery) in the large ones - the model check itself always     *)
+(* covers the whole scope                                                    *)
+Emit == EmitOps => ((EmitEvery = 1 \/ RandomElement(1..EmitEvery) = 1) => PrintT(<<"VERIF_OPS", ToJson(ops')>>))
 =============================================================================
